@@ -893,6 +893,7 @@ coap_oscore_decrypt_pdu(coap_session_t *session,
   coap_bin_const_t aad;
   coap_bin_const_t nonce;
   int pltxt_size = 0;
+  int authenticated = 0;
   uint8_t coap_request = COAP_PDU_IS_REQUEST(pdu);
   /* What a response's own Partial IV did to rcp_ctx before it was verified */
   uint64_t rsp_saved_last_seq = 0;
@@ -1477,6 +1478,7 @@ coap_oscore_decrypt_pdu(coap_session_t *session,
   }
 
   assert((size_t)pltxt_size < pdu->alloc_size + pdu->max_hdr_size);
+  authenticated = 1;
 
   if (refresh_association) {
     /* Refresh the association */
@@ -1755,7 +1757,12 @@ coap_oscore_decrypt_pdu(coap_session_t *session,
 error:
   coap_send_ack_lkd(session, pdu);
 error_no_ack:
-  if (association && association->is_observe == 0)
+  /*
+   * A response that did not authenticate says nothing about the exchange it
+   * names: the association stays, the genuine response may still arrive.
+   */
+  if (association && association->is_observe == 0 &&
+      (authenticated || coap_request))
     oscore_delete_association(session, association);
   coap_delete_pdu(decrypt_pdu);
   coap_delete_pdu(plain_pdu);
